@@ -473,8 +473,10 @@ def r7_pecs(repo):
     ok = len(dis) == 1 and src(dis[0].value.generators[0].iter) == "%s.type_parameters" % tc
     if ok:
         t = _stmt(dis[0])._parent
+        # the switch wins whatever the PECS decision was: the block is not in the else-branch of the PECS test
+        gsd = [(src(t_), p_) for t_, p_ in flat_guards(dis[0])]
         ok = isinstance(t, ast.If) and src(t.test).startswith("disable_variance or") and \
-            dis[0].lineno > (pecs[0].lineno if pecs else 0)
+            dis[0].lineno > (pecs[0].lineno if pecs else 0) and not any("enable_pecs" in s_ for s_, _p in gsd)
         cc = [c for c in calls_in(f.node) if call_name(c) == "_compute_type_variable_assignments"]
         ok = ok and len(cc) == 1 and src(kwarg(cc[0], "variance_choices", 3)) == "variance_choices" and \
             cc[0].lineno > dis[0].lineno
